@@ -4,6 +4,7 @@ package ast
 
 import (
 	"fmt"
+	"strings"
 	"sync"
 )
 
@@ -805,6 +806,7 @@ func specBoolByte(b bool) int {
 //@   panics_iff !(re_match(specVarNamePattern(), name) && minLength >= 0 && maxLength >= -1 && (maxLength == -1 || minLength <= maxLength))
 //@   ensures typeis(result, *ASCIINode) && fresh(result) && !r.isValue && r.value == ""
 //@   ensures r.variable.name == name && r.variable.minLength == minLength && r.variable.maxLength == maxLength
+//@   rac_ensures racASCIIBoundsSurviveListFills()
 
 // ---------------------------------------------------------------------------------------------
 // FloatNode factory and rep check
@@ -890,17 +892,18 @@ func specBoolByte(b bool) int {
 //@   allocates 0 when (forall s string :: !has(node.variables, s)) && (forall i int :: 0 <= i && i < len(node.values) ==> !typeis(node.values[i], emptyItemNode) && nvars(node.values[i]) == 0)
 //@   ensures (forall s string :: !has(node.variables, s)) && (forall i int :: 0 <= i && i < len(node.values) ==> !typeis(node.values[i], emptyItemNode) && nvars(node.values[i]) == 0) ==> len(result) == 0
 //@   ensures forall s string :: has(node.variables, s) && 0 <= node.variables[s] && node.variables[s] < len(node.values) && typeis(node.values[node.variables[s]], emptyItemNode) ==> result[lvar_off(me, node.variables[s])] == s
+//@   ensures forall i int, k int :: 0 <= i && i < len(node.values) && !typeis(node.values[i], emptyItemNode) && 0 <= k && k < nvars(node.values[i]) ==> result[lvar_off(me, i) + k] == var_at(node.values[i], k)
 //@   defines len(result) == nvars(box(node, *ListNode))
 //@   defines forall k int :: 0 <= k && k < len(result) ==> result[k] == var_at(box(node, *ListNode), k)
+//@   rac_ensures racVariablesFollowPrintedOrder()
 //@   loop 1
+//@     invariant forall i int, k int :: 0 <= i && i <= rangeindex && !typeis(node.values[i], emptyItemNode) && 0 <= k && k < nvars(node.values[i]) ==> result[lvar_off(me, i) + k] == var_at(node.values[i], k)
 //@     invariant fresh(result) && 0 <= rangeindex+1 && rangeindex+1 <= len(node.values) && len(result) == lvar_off(me, rangeindex+1)
 //@     invariant forall s string :: has(node.variables, s) ==> has(posVar, node.variables[s]) && posVar[node.variables[s]] == s
 //@     invariant forall i int :: 0 <= i && i <= rangeindex+1 ==> 0 <= lvar_off(me, i) && lvar_off(me, i) <= len(result)
 //@     invariant (forall s string :: !has(node.variables, s)) && (forall i int :: 0 <= i && i < len(node.values) ==> !typeis(node.values[i], emptyItemNode) && nvars(node.values[i]) == 0) ==> len(result) == 0
 //@     invariant allocated() == old(allocated()) || len(result) > 0 || (exists s string :: has(node.variables, s))
 //@     invariant forall s string :: has(node.variables, s) && 0 <= node.variables[s] && node.variables[s] <= rangeindex && typeis(node.values[node.variables[s]], emptyItemNode) ==> result[lvar_off(me, node.variables[s])] == s
-// Not claimed (the solvers do not decide the inductive step within the time limit; listed as a residual of C16 in DESIGN.md):
-//   ensures forall i int, k int :: 0 <= i && i < len(node.values) && !typeis(node.values[i], emptyItemNode) && 0 <= k && k < nvars(node.values[i]) ==> result[lvar_off(me, i) + k] == var_at(node.values[i], k)
 
 //@ func (*ListNode).checkRep
 //@   establishes
@@ -1025,7 +1028,9 @@ func specBoolByte(b bool) int {
 //@   ensures len(node.variables) == 0 && (forall i int :: 0 <= i && i < n ==> enc_len(node.values[i]) != 0) ==> len(result) == list_off(me, n)
 //@   ensures len(result) != 0 ==> result[0] == specFormatCode("list")*4 + specNLen(n)
 //@   ensures len(result) != 0 ==> forall k int :: 0 <= k && k < h-1 ==> result[1+k] == specLenByte(n, h-1, k)
+//@   ensures len(result) != 0 ==> forall i int, k int :: 0 <= i && i < n && 0 <= k && k < enc_len(node.values[i]) ==> result[list_off(me, i) + k] == enc_at(node.values[i], k)
 //@   loop 1
+//@     invariant forall i int, k int :: 0 <= i && i <= rangeindex && 0 <= k && k < enc_len(node.values[i]) ==> result[list_off(me, i) + k] == enc_at(node.values[i], k)
 //@     invariant 0 <= rangeindex+1 && rangeindex+1 <= n && len(node.variables) == 0
 //@     invariant fresh(result) && len(result) == list_off(me, rangeindex+1) && h <= len(result)
 //@     invariant forall i int :: 0 <= i && i <= rangeindex ==> enc_len(node.values[i]) != 0
@@ -1326,4 +1331,137 @@ func racListFillIsSubstitution() bool {
 		fmt.Println("GOVC-COUNT racListFillIsSubstitution fills compared with direct construction:", n)
 	})
 	return racListFillOK
+}
+
+// racVariablesFollowPrintedOrder (C16, bounded): for a family of trees with variables in every kind of position, Variables()
+// names every variable exactly once, in the order in which the names appear in the printed form, and ToBytes is empty iff
+// the list is non-empty. Variable names are chosen so that none is a substring of another token.
+var (
+	racVarOrderOnce sync.Once
+	racVarOrderOK   bool
+)
+
+func racVariablesFollowPrintedOrder() bool {
+	racVarOrderOnce.Do(func() {
+		racVarOrderOK = true
+		defer func() {
+			if r := recover(); r != nil {
+				racVarOrderOK = false
+				fmt.Println("GOVC-NOTE racVariablesFollowPrintedOrder: panic", r)
+			}
+		}()
+		trees := []ItemNode{
+			NewIntNode(1, "vQa", 5, "vQb"),
+			NewUintNode(2, 1, "vQc", "vQa", 7),
+			NewBinaryNode("vQd", 1, "vQa"),
+			NewBooleanNode(true, "vQe"),
+			NewFloatNode(4, "vQf", 1.5, "vQa"),
+			NewASCIINodeVariable("vQg", 1, 4),
+			NewASCIINode("no variables"),
+			NewListNode(),
+			NewListNode("vQh", NewIntNode(1, "vQb", "vQa"), "vQi"),
+			NewListNode(NewListNode(NewUintNode(1, "vQz", "vQa"), "vQm"), "vQb", NewListNode("vQy", NewListNode(NewASCIINodeVariable("vQx", 0, -1), NewBooleanNode("vQw"))), NewBinaryNode("vQc")),
+			NewListNode(NewIntNode(1, 1), NewListNode(NewASCIINode("x"), NewListNode()), NewUintNode(2, 7)),
+			NewListNode(NewUintNode(1, "vQa"), "vQb", "...", NewASCIINodeVariable("vQc", 0, -1)),
+			NewListNode(NewListNode(NewUintNode(1, "vQa"), "...[0]"), "...[1]", NewListNode("vQb", "...[2]")),
+		}
+		n := 0
+		for _, t := range trees {
+			n++
+			text := fmt.Sprint(t)
+			vars := t.Variables()
+			pos := -1
+			seen := map[string]bool{}
+			for _, v := range vars {
+				if seen[v] {
+					racVarOrderOK = false
+					fmt.Printf("GOVC-NOTE racVariablesFollowPrintedOrder: %q lists %q twice: %v\n", text, v, vars)
+					return
+				}
+				seen[v] = true
+				at := strings.Index(text, v)
+				if strings.HasPrefix(v, "...") {
+					at = strings.Index(text[pos+1:], "...")
+					if at >= 0 {
+						at += pos + 1
+					}
+				}
+				if at < 0 || at <= pos {
+					racVarOrderOK = false
+					fmt.Printf("GOVC-NOTE racVariablesFollowPrintedOrder: %q: variable list %v does not follow the printed order at %q\n", text, vars, v)
+					return
+				}
+				pos = at
+			}
+			// every printed name is listed
+			if strings.Count(text, "vQ")+strings.Count(text, "...") != len(vars) {
+				racVarOrderOK = false
+				fmt.Printf("GOVC-NOTE racVariablesFollowPrintedOrder: %q prints %d names but lists %v\n", text, strings.Count(text, "vQ")+strings.Count(text, "..."), vars)
+				return
+			}
+			if (len(t.ToBytes()) == 0) != (len(vars) != 0) {
+				racVarOrderOK = false
+				fmt.Printf("GOVC-NOTE racVariablesFollowPrintedOrder: %q: ToBytes is empty = %v with variables %v\n", text, len(t.ToBytes()) == 0, vars)
+				return
+			}
+		}
+		fmt.Println("GOVC-COUNT racVariablesFollowPrintedOrder trees compared:", n)
+	})
+	return racVarOrderOK
+}
+
+// racASCIIBoundsSurviveListFills (C15, bounded): the declared length bounds of an ASCII variable are kept when the list around it
+// is filled or its ellipsis is expanded (the documented example shape <L <A[2..4] s> ...>), and are still enforced afterwards.
+var (
+	racASCIIBoundsOnce sync.Once
+	racASCIIBoundsOK   bool
+)
+
+func racASCIIBoundsSurviveListFills() bool {
+	racASCIIBoundsOnce.Do(func() {
+		racASCIIBoundsOK = true
+		fail := func(format string, a ...interface{}) {
+			racASCIIBoundsOK = false
+			fmt.Printf("GOVC-NOTE racASCIIBoundsSurviveListFills: "+format+"\n", a...)
+		}
+		defer func() {
+			if r := recover(); r != nil {
+				fail("panic %v", r)
+			}
+		}()
+		panics := func(f func()) (p bool) {
+			defer func() { p = recover() != nil }()
+			f()
+			return false
+		}
+		for _, b := range [][2]int{{2, 4}, {3, 3}, {1, -1}, {0, 2}} {
+			tmpl := NewListNode(NewASCIINodeVariable("s", b[0], b[1]), "other", "...")
+			want := fmt.Sprint(NewASCIINodeVariable("s", b[0], b[1]))
+			for _, fill := range []map[string]interface{}{{"other": NewBooleanNode(true)}, {"...": 0}, {"...": 1}, {"...": 2}} {
+				got := tmpl.FillVariables(fill)
+				text := fmt.Sprint(got)
+				// every copy of the variable prints the same size declaration
+				decl := want[:strings.Index(want, " ")]
+				if strings.Count(text, decl+" s") == 0 {
+					fail("bounds [%d..%d]: %v gives %q, which no longer declares %q", b[0], b[1], fill, text, decl)
+					return
+				}
+				// and the bounds are enforced on the first remaining copy
+				name := got.Variables()[0]
+				if b[0] > 0 && !panics(func() { got.FillVariables(map[string]interface{}{name: strings.Repeat("x", b[0]-1)}) }) {
+					fail("bounds [%d..%d]: after %v a string of length %d is accepted for %q", b[0], b[1], fill, b[0]-1, name)
+					return
+				}
+				if b[1] >= 0 && !panics(func() { got.FillVariables(map[string]interface{}{name: strings.Repeat("x", b[1]+1)}) }) {
+					fail("bounds [%d..%d]: after %v a string of length %d is accepted for %q", b[0], b[1], fill, b[1]+1, name)
+					return
+				}
+				if panics(func() { got.FillVariables(map[string]interface{}{name: strings.Repeat("x", b[0])}) }) {
+					fail("bounds [%d..%d]: after %v a string of length %d is refused for %q", b[0], b[1], fill, b[0], name)
+					return
+				}
+			}
+		}
+	})
+	return racASCIIBoundsOK
 }
